@@ -87,6 +87,21 @@ CHECKS.append(_check("C01", "objhist", "exploration",
            "deterministic simulation: seeded conditioning histories with callable faults, twin-joint reference value",
            "DESIGN.md 3.5"))
 
+CHECKS.append(_check("C08", "nuts", "exploration",
+           "MECHANISM CLAUSES by lock-step reference; invariance by argument. For every transition of experimental NUTS "
+           "(fresh, during and after warm-up, after checkpoint reload) and of legacy NUTS (fixed, searched and adapted step size) an "
+           "independent reference (leapfrog + Hoffman-Gelman Algorithm 3/6 with slice variable) is fed the recorded momentum, slice "
+           "draw, step size and the uniforms actually served, and must reproduce (A) the exact ordered set of evaluated points - "
+           "integrator, doubling, stop at first U-turn / divergence / non-finite leaf / max depth, (B) the selected state, (C) the "
+           "cached log-density and gradient, (D) the acceptance statistic and the dual-averaging step size. Merge and top-level "
+           "uniforms are placed adversarially next to the reference's thresholds n''/(n'+n'') and min(1,n'/n); NaN/-inf/+inf leaves "
+           "are injected and must never be selected. The distributional sentence (state after k transitions is again a draw) is not "
+           "measured: it is the published theorem about the algorithm the implementation is shown to refine.",
+           "Trusted: the reference implementation of the algorithm (90 lines), the zoo's reference densities. Undecided protocol "
+           "mismatches are counted, never reported as violations.",
+           "deterministic simulation: lock-step refinement against a reference NUTS under adversarially scheduled uniforms, non-finite leaf faults",
+           "DESIGN.md 3.3"))
+
 ENGINES = [
     {"name": "chain", "path": "engines/chain.py", "serves_properties": ["C14"],
      "kind_free_text": "seeded simulator of sampler runs: owns the random tape, the file system, the callback and the target callables; injects splits, checkpoints, crashes, restarts, I/O errors"},
@@ -96,6 +111,8 @@ ENGINES = [
      "kind_free_text": "two random-stream clients (own generator vs global stream) interleaved by the scheduler; solo-run equivalence"},
     {"name": "objhist", "path": "engines/objhist.py", "serves_properties": ["C11", "C01"],
      "kind_free_text": "interleaved operations on objects sharing structure; twin rebuilt from recipe; hyper-parameter callable faults"},
+    {"name": "nuts", "path": "engines/nuts.py", "serves_properties": ["C08"],
+     "kind_free_text": "lock-step reference NUTS (coroutine) with adversarial merge/top-level uniforms and non-finite leaf faults"},
     {"name": "mhkernel", "path": "engines/mhkernel.py", "serves_properties": ["C02"],
      "kind_free_text": "adversarial scheduler of the accept-site uniform with a reference MH model per proposal family; NaN/-inf fault injection at proposals"},
 ]
